@@ -386,6 +386,31 @@ def _np_where1(ex, st, args, kw, node):
     return Tup((ex.alloc_arr(st, (cnt,), idx, "int", "fresh", tag="where"),))
 
 
+ROUNDI = z3.Function("u_roundi", R, I)
+
+
+def ax_round():
+    x = _x()
+    return [z3.ForAll([x], z3.And(z3.ToReal(ROUNDI(x)) - x <= z3.RealVal("1/2"), x - z3.ToReal(ROUNDI(x)) <= z3.RealVal("1/2")), patterns=[ROUNDI(x)])]
+
+
+def _np_round(ex, st, args, kw, node):
+    """np.round: nearest integer (A-ROUND: |round(x) - x| <= 1/2; ties are not specified)"""
+    x = args[0]
+    f = lambda v: z3.ToReal(ROUNDI(real(v)))
+    if isinstance(x, ARef):
+        return ex.map1(st, x, f)
+    return f(x)
+
+
+def _np_diff(ex, st, args, kw, node):
+    d = ex.arr(st, args[0])
+    if d.rank != 1:
+        raise Undecided("np.diff rank")
+    n = z3.simplify(z3.If(d.shape[0] >= 1, d.shape[0] - 1, z3.IntVal(0)))
+    return ex.alloc_arr(st, (n,), ex.lam1(lambda i: ex.sel1(d, i + 1) - ex.sel1(d, i)), d.elem, "fresh", tag="diff")
+
+
 def _np_arange(ex, st, args, kw, node):
     if len(args) != 1 or kw:
         raise Undecided("np.arange with start/step")
@@ -411,6 +436,8 @@ def _len(ex, st, args, kw, node):
     from . import objects
     if isinstance(x, objects.SLRef):
         return st.heap[x.sid].length
+    if isinstance(x, objects.SDRef):
+        return st.heap[x.sid].nk
     if isinstance(x, DictV):
         return z3.IntVal(len(x.items))
     if isinstance(x, StrV):
@@ -449,10 +476,18 @@ def _minmax(sel):
                 args = st.heap[x.sid].items
             elif isinstance(x, (Tup, tuple)):
                 args = list(x)
+            elif isinstance(x, SeqV):
+                if ex.spec_mode:
+                    raise Undecided("min/max of a sequence inside a specification")
+                ex.safe(st, "minmax-nonempty", x.length >= 1, node)
+                probe = lit(x.getter(ex, st, z3.IntVal(0)))
+                r = ex.fresh("seq_min" if sel == "min" else "seq_max", probe.sort())
+                t = z3.Int("t!mm")
+                e_t = lit(x.getter(ex, st, t))
+                st.pc += [z3.ForAll([t], z3.Implies(z3.And(t >= 0, t < x.length), (r <= e_t) if sel == "min" else (r >= e_t))),
+                          z3.Exists([t], z3.And(t >= 0, t < x.length, e_t == r))]
+                return r
             else:
-                hook = getattr(x, "minmax", None)
-                if hook:
-                    return hook(ex, st, sel, node)
                 raise Undecided("min/max of this iterable")
         out = lit(args[0])
         for a in args[1:]:
@@ -553,6 +588,10 @@ def _arr_astype(ex, st, args, kw, node):
     t = args[1]
     if isinstance(t, FuncV) and t.name == "int" and d.elem == "int":
         return ex.alloc_arr(st, d.shape, d.data, "int", "fresh", tag="astype")
+    if isinstance(t, FuncV) and t.name == "int" and d.elem == "real" and d.rank == 1:
+        # truncation toward zero
+        tr = lambda v: z3.If(v >= 0, z3.ToInt(v), -z3.ToInt(-v))
+        return ex.alloc_arr(st, d.shape, ex.lam1(lambda i: tr(ex.sel1(d, i))), "int", "fresh", tag="astype")
     raise Undecided("astype")
 
 
@@ -577,13 +616,25 @@ NP = ModV("np", {
     "full_like": _np_like("full_like"),
     "array": FuncV(_np_array, "np.array"), "where": FuncV(_np_where1, "np.where"),
     "logical_and": FuncV(_np_logical_and, "np.logical_and"), "arange": FuncV(_np_arange, "np.arange"),
+    "round": FuncV(_np_round, "np.round"), "diff": FuncV(_np_diff, "np.diff"),
     "sum": _reduce(SUM), "mean": _reduce(MEAN), "max": _np_ext(False), "min": _np_ext(True),
     "argmin": _np_argext(ARGMIN), "argmax": _np_argext(ARGMAX),
     "nan": None, "double": FuncV(_float, "np.double"),
 })
 
+def _range(ex, st, args, kw, node):
+    a = [as_int(x) for x in args]
+    if len(a) == 1:
+        lo, hi = z3.IntVal(0), a[0]
+    elif len(a) == 2:
+        lo, hi = a
+    else:
+        raise Undecided("range with step")
+    return SeqV(z3.simplify(z3.If(hi > lo, hi - lo, z3.IntVal(0))), lambda ex_, st_, i, _lo=lo: i + _lo, owner="fresh", name="range")
+
+
 BUILTINS = {
-    "np": NP,
+    "np": NP, "range": FuncV(_range, "range"),
     "len": FuncV(_len, "len"), "abs": FuncV(_abs, "abs"), "int": FuncV(_int, "int"), "float": FuncV(_float, "float"),
     "bool": FuncV(lambda ex, st, a, k, n: truth(a[0]), "bool"),
     "min": _minmax("min"), "max": _minmax("max"), "tuple": FuncV(_tuple, "tuple"), "list": FuncV(_list, "list"),
